@@ -716,6 +716,11 @@ def _float(interp, args, kwargs):
     if not args:
         return 0.0
     (v,) = args
+    if type(v).__name__ == "NumText":
+        x = v.value
+        if type(x) is Sym:
+            return mk(to_real(num_term(x)), float)
+        return float(x)
     if type(v) is Sym:
         return mk(to_real(num_term(v)), float)
     if type(v) is SObj:
@@ -735,6 +740,9 @@ def _float(interp, args, kwargs):
 
 def _np_float64(interp, args, kwargs):
     (v,) = args
+    if type(v).__name__ == "NumText":
+        x = v.value
+        return Sym(to_real(num_term(x)), np.float64) if type(x) is Sym else np.float64(x)
     if type(v) is Sym:
         return Sym(to_real(num_term(v)), np.float64)
     try:
@@ -747,6 +755,10 @@ def _int(interp, args, kwargs):
     if not args:
         return 0
     v = args[0]
+    if type(v).__name__ == "NumText":
+        if v.cls != "int":
+            raise PyExc(ValueError, ("invalid literal for int() with base 10: <text of a float>",))
+        return v.value if type(v.value) is not Sym else mk(num_term(v.value), int)
     if type(v) is Sym:
         t = num_term(v)
         if t.sort() == z3.IntSort():
@@ -771,10 +783,14 @@ def _str(interp, args, kwargs):
         return ""
     v = args[0]
     if type(v) is Sym and v.ty is not bool:
-        from .objects import NumStr
+        from .xmlmodel import NumText
 
-        interp.ctx.used_models.add("str(number): injective function of (type, value)")
-        return NumStr(v)
+        interp.ctx.used_models.add("str(number): text denoting exactly that number (repr round-trips); floats may print in exponent form")
+        return NumText(v, "int" if is_int_type(v.ty) else "pyrepr", v)
+    if type(v) is Sym and v.ty is bool:
+        return "True" if interp.truth(v) else "False"
+    if type(v).__name__ == "NumText":
+        return v
     if has_sym_deep(v):
         return SymStr(["<sym>"])
     if type(v) is SObj:
@@ -944,8 +960,8 @@ def hash_term(interp, v):
         return z3.IntVal(hash(v))
     if type(v).__name__ == "ArrStr":
         return hash_term(interp, tuple(v.items) + (v.shape,))
-    if type(v).__name__ == "NumStr":
-        return HASH_PAIR(z3.IntVal(7 if is_float_type(v.sym.ty) else 11), HASH_NUM(real_term(v.sym)))
+    if type(v).__name__ == "NumText":
+        return HASH_PAIR(z3.IntVal(11 if v.cls == "int" else 7), HASH_NUM(real_term(v.value)))
     if isinstance(v, (list, dict, set)):
         raise PyExc(TypeError, ("unhashable type: '%s'" % type(v).__name__,))
     if type(v).__name__ in ("dict_items", "dict_keys", "dict_values"):
